@@ -35,6 +35,7 @@ class Interp:
         self.ecb, self.ccb = w.callbacks(cbkind, self.pool_ref, raise_end, raise_cancel)
         self.rejected = []   # exceptions raised by spawn requests
         self.cancel_ids = []  # ids successfully passed to cancel()
+        self.flush_cancelled = []
 
     # ------------------------------------------------------------ requests
     def _newreq(self, kind, **kw):
@@ -43,10 +44,10 @@ class Interp:
         r.update(kw)
         return r
 
-    def apply(self, num, group=None, args=(), kwargs=None, raising=(), fname="fn"):
+    def apply(self, num, group=None, args=(), kwargs=None, raising=(), fname="fn", swallow=0):
         r = self._newreq("apply", num=num, args=args, kwargs=kwargs)
         self.w.op("apply", num, group)
-        fn = self.w.worker(r["idx"], fname)
+        fn = self.w.worker(r["idx"], fname, swallow=swallow)
         if raising:
             fn = self.w.callsite(r["idx"], fn, raising)
         r["raising"] = raising
@@ -125,9 +126,9 @@ class Interp:
         return self.w.cb_cancel(a)
 
     # ------------------------------------------------------------ cancellation
-    def cancel(self, *ids):
+    def cancel(self, *ids, msg=None):
         self.w.op("cancel", *ids)
-        e = self.w.do_cancel(self.pool, ids)
+        e = self.w.do_cancel(self.pool, ids, msg)
         if e is None:
             self.cancel_ids += list(ids)
         return e
@@ -173,6 +174,16 @@ class Interp:
         t = self.w.spawn(self.pool.flush(return_exceptions=ret_exc))
         self.flushes.append((t, ret_exc, snap))
         return t
+
+    def cancel_flush(self):
+        """Cancel the most recent flush() call that is still pending (e.g. a wait_for() around it timed out)."""
+        self.w.op("flushx")
+        for t, _, _ in reversed(self.flushes):
+            if not t.done():
+                t.cancel()
+                self.flush_cancelled.append(t)
+                return True
+        return False
 
     def gather_and_close(self, ret_exc=False):
         self.w.op("gather", ret_exc)
@@ -267,6 +278,8 @@ def act(it, name, a):
         it.flush(True)
     elif name == "flushF":
         it.flush(False)
+    elif name == "flushx":
+        it.cancel_flush()
     elif name == "lock":
         it.lock()
     elif name == "unlock":
